@@ -23,11 +23,36 @@ ASSUMPTIONS = [
 ]
 
 
+EPS = 2.0 ** -24
+
+
 @st.composite
-def pw_arrays(draw, kind, q, k0, n, max_pieces, pool=None):
-    """breakpoints in grid units 0..n -> dict x, y / y1, y2 (floats)"""
+def pw_arrays(draw, kind, q, k0, n, max_pieces, pool=None, near_x=None):
+    """breakpoints in grid units 0..n -> dict x, y / y1, y2 (floats).
+    near_x: breakpoints (floats) of another function on the same support; the
+    style 'near' then produces breakpoints that coincide with those up to
+    +-2^-24 - almost but not exactly shared breakpoints."""
     interior = list(range(1, n))
-    style = draw(st.sampled_from(["random", "single", "pool", "early", "late", "random"]))
+    styles = ["random", "single", "pool", "early", "late", "random"]
+    if near_x is not None and len(near_x) > 2:
+        styles += ["near", "near"]
+    style = draw(st.sampled_from(styles))
+    if style == "near":
+        xs = [near_x[0]]
+        for v in near_x[1:-1]:
+            d = draw(st.sampled_from([0.0, EPS, -EPS, 0.0, 3 * EPS]))
+            if xs[-1] < v + d < near_x[-1]:
+                xs.append(v + d)
+        xs.append(near_x[-1])
+        val = st.integers(-40, 40).map(lambda v: v / 8.0)
+        m = len(xs) - 1
+        f = dict(kind=kind, x=xs)
+        if kind == "pwc":
+            f["y"] = draw(st.lists(val, min_size=m, max_size=m))
+        else:
+            f["y1"] = draw(st.lists(val, min_size=m, max_size=m))
+            f["y2"] = draw(st.lists(val, min_size=m, max_size=m))
+        return f
     cap = min(max_pieces - 1, len(interior))
     if style == "single" or cap <= 0:
         pts = []
@@ -67,24 +92,28 @@ def _case(draw, tier):
     kind = draw(st.sampled_from(["pwc", "pwl"]))
     f = draw(pw_arrays(kind, q, k0, n, 8 if tier == "quick" else 20))
     bps = [round((v * q - k0)) for v in f["x"]]
-    cands = sorted(set([2 * b for b in bps] + [a + b for a, b in zip(bps, bps[1:])]))
+    x0, xN = f["x"][0], f["x"][-1]
+    cands = sorted(set(f["x"] + [(a + b) / 2.0 for a, b in zip(f["x"], f["x"][1:])]))
+    # points 2^-24 beside a breakpoint: not a breakpoint, but "close" to one
+    near = [v + d for v in f["x"] for d in (EPS, -EPS) if x0 <= v + d <= xN]
 
     def pt():
-        return draw(st.one_of(st.sampled_from(cands), st.integers(0, 2 * n),
-                              st.sampled_from([0, 2 * n])))
+        return draw(st.one_of(st.sampled_from(cands),
+                              st.integers(0, 2 * n).map(lambda p: (2 * k0 + p) / (2.0 * q)),
+                              st.sampled_from(near), st.sampled_from([x0, xN])))
     chains = []
     for _ in range(draw(st.integers(1, 3))):
         pts = sorted(set(pt() for _ in range(draw(st.sampled_from([2, 3, 2, 4])))))
         if len(pts) < 2:
-            pts = [0, 2 * n]
-        chains.append([(2 * k0 + p) / (2.0 * q) for p in pts])
-    # one chain with both ends in the same piece, when a piece is wide enough
+            pts = [x0, xN]
+        chains.append(pts)
+    # one chain with both ends in the same piece
     k = draw(st.integers(0, len(bps) - 2))
     lo, hi = 4 * bps[k], 4 * bps[k + 1]
     a = draw(st.integers(lo, hi - 1))
     b = draw(st.integers(a + 1, hi))
     chains.append([(4 * k0 + a) / (4.0 * q), (4 * k0 + b) / (4.0 * q)])
-    times = [(2 * k0 + pt()) / (2.0 * q) for _ in range(draw(st.integers(1, 6)))]
+    times = [pt() for _ in range(draw(st.integers(1, 6)))]
     return dict(f=f, chains=chains, times=times)
 
 
@@ -150,6 +179,8 @@ def classify(case):
             if a == f["x"][0] or b == f["x"][-1]:
                 labels.append("interval_end_on_end_point")
     for t in case["times"]:
+        if t not in f["x"] and any(abs(t - v) <= 2 * EPS for v in f["x"]):
+            labels.append("time_close_to_breakpoint")
         if t in xs:
             labels.append("time_on_interior_breakpoint")
         elif t in (f["x"][0], f["x"][-1]):
